@@ -53,6 +53,12 @@ pub struct HistCfg {
   pub find_path_hash: Option<u64>,
   /// failure flags also make the stamp of a declared write fail (C05/C06 group)
   pub stamp_fail: bool,
+  /// staged exploration ("start from non-initial states"): when > 0, a first stage of up to `stage1` events over the
+  /// graph-building alphabet only (Set of the LAST resource, TopDown with one root) is explored breadth-first, and from
+  /// EVERY state of that stage (including the initial one) all sequences of up to `depth` events over the full alphabet.
+  /// The number of second-stage events is part of the state identity, so no second-stage continuation is lost to
+  /// deduplication.
+  pub stage1: usize,
 }
 
 /// Fixed-key hash (no addresses, no random seeds): used for trace digests only.
@@ -94,6 +100,8 @@ struct NodeRec {
   known: Vec<Tid>,
   crashes_used: usize,
   last_ticks: usize,
+  /// staged exploration: number of second-stage events in `path` (0 = still in the first stage)
+  p2: usize,
 }
 
 #[derive(Default, Clone, Debug)]
@@ -205,6 +213,15 @@ fn enabled_events(prog: &Prog, cfg: &HistCfg, node: &NodeRec) -> Vec<Event> {
     }
   }
   evs
+}
+
+/// First-stage alphabet of a staged exploration: the last resource is the "mode" resource.
+fn is_stage1_event(prog: &Prog, ev: &Event) -> bool {
+  match ev {
+    Event::Set(r, _) => *r + 1 == prog.n_res,
+    Event::TopDown(roots) => roots.len() == 1,
+    _ => false,
+  }
 }
 
 fn uses_faulty_on(prog: &Prog, r: Rid) -> bool {
@@ -387,22 +404,30 @@ pub fn explore_program(prog: &Prog, class: Class, cfg: &HistCfg, stats: &mut Sta
     let an = Analyzer::new(prog, class, cfg.prop);
     seen.insert(state_key(None, &an, cfg, 0));
   }
-  frontier.push_back(NodeRec { path: vec![], digests: vec![], cells: [None; MAX_RES], fail: [false; MAX_RES], dirty: 0, known: vec![], crashes_used: 0, last_ticks: 0 });
+  frontier.push_back(NodeRec { path: vec![], digests: vec![], cells: [None; MAX_RES], fail: [false; MAX_RES], dirty: 0, known: vec![], crashes_used: 0, last_ticks: 0, p2: 0 });
   let mut depth_capped = false;
   let mut state_capped = false;
   while let Some(node) = frontier.pop_front() {
     if Instant::now() > deadline { stats.wall_capped = true; break; }
-    if node.path.len() >= cfg.depth { depth_capped = true; continue; }
+    let staged = cfg.stage1 > 0;
+    let in_stage1 = staged && node.p2 == 0 && node.path.len() < cfg.stage1;
+    if !staged && node.path.len() >= cfg.depth { depth_capped = true; continue; }
+    if staged && !in_stage1 && node.p2 >= cfg.depth { depth_capped = true; continue; }
     if cfg.state_cap != 0 && seen.len() >= cfg.state_cap { state_capped = true; break; }
     let mut candidates: Vec<(PEvent, usize)> = Vec::new();
-    for ev in enabled_events(prog, cfg, &node) { candidates.push((PEvent::plain(ev), node.crashes_used)); }
+    for ev in enabled_events(prog, cfg, &node) {
+      if staged && node.p2 >= cfg.depth && !is_stage1_event(prog, &ev) { continue; }
+      candidates.push((PEvent::plain(ev), node.crashes_used));
+    }
     let mut ci = 0;
     while ci < candidates.len() {
       let (pev, crashes_used) = candidates[ci].clone();
       ci += 1;
       let mut path = node.path.clone();
       path.push(pev.clone());
-      let j = judge_path(prog, class, cfg, &path, crashes_used);
+      let mut j = judge_path(prog, class, cfg, &path, crashes_used);
+      let p2 = if !staged { 0 } else if in_stage1 && is_stage1_event(prog, &pev.ev) { 0 } else { node.p2 + 1 };
+      if staged { j.key.push(p2 as u8); }
       stats.transitions += 1;
       stats.sessions_executed += j.sessions;
       stats.max_depth = stats.max_depth.max(path.len());
@@ -480,7 +505,7 @@ pub fn explore_program(prog: &Prog, class: Class, cfg: &HistCfg, stats: &mut Sta
         digests.push(last_digest);
         frontier.push_back(NodeRec {
           path, digests, cells: last.post_cells, fail: last.post_fail, dirty: j.dirty, known: j.known.clone(),
-          crashes_used, last_ticks: last.ticks,
+          crashes_used, last_ticks: last.ticks, p2,
         });
       }
     }
